@@ -205,6 +205,11 @@ def sess_analyse(cid, steps, meta, go_out):
             return
         mid, side, nacc, err = d.split('.', 3)
         side = 'cs'[int(side)]
+        if int(mid) not in msgs:
+            # a message on the wire that no single accepted Write accounts for (one Write produced
+            # several frames): reported by the oracle, not fed to the per-side model
+            problems.append('message %s reached side %s although no Write produced it as its one frame' % (mid, side))
+            return
         _, sid, closing, pl = msgs[int(mid)]
         mev[side].append('V:%d:%d:%s' % (sid, closing, hx(pl) if closing == 0 else '-'))
         mexp[side].append('v%s%s' % (nacc, '1' if err == 'brokensess' else '0'))
